@@ -32,14 +32,26 @@ def _limit_as(nbytes):
     return f
 
 
-def sfs(args, stdin=None, kind="release", env=None, timeout=30, exe=None, cwd=None, mem_limit=None, stderr_path=None):
+def sfs(args, stdin=None, kind="release", env=None, timeout=30, exe=None, cwd=None, mem_limit=None, stderr_path=None, stdin_tty=False):
     """Run `sfs args...`; stdin: bytes or None (=/dev/null). Never raises on failure of the tool.
-    mem_limit: optional RLIMIT_AS in bytes for the child."""
+    mem_limit: optional RLIMIT_AS in bytes for the child. stdin_tty: stdin is an (idle) interactive terminal, as at a shell
+    prompt - only meaningful when the input is named by a path."""
     exe = exe or build.cli(kind)
     e = dict(BASE_ENV)
     if env:
         e.update(env)
     argv = [exe] + [str(a) for a in args]
+    if stdin_tty:
+        import pty
+        master, slave = pty.openpty()
+        try:
+            p = subprocess.run(argv, stdin=slave, stdout=subprocess.PIPE, stderr=subprocess.PIPE, env=e, timeout=timeout, cwd=cwd)
+            return Run(argv[1:], p.returncode, p.stdout, p.stderr, stdin=None, env=env, kind=kind)
+        except subprocess.TimeoutExpired as t:
+            return Run(argv[1:], None, t.stdout or b"", t.stderr or b"", timed_out=True, stdin=None, env=env, kind=kind)
+        finally:
+            os.close(master)
+            os.close(slave)
     try:
         if stderr_path:
             # stderr goes to a device/file of the caller's choice (e.g. /dev/full): nothing can be read back from it
